@@ -32,12 +32,9 @@ type op struct {
 	kind    string // e.g. neo.transfer, policy.block, kv.invoke
 	line    string // the decoded op line for the model (without result)
 	tx      *transaction.Transaction
-	model   bool   // the Lean model predicts the result of this op
-	votes   bool   // may change NEO votes / candidates when it HALTs (recompute trigger in the real code)
-	blkCand bool   // policy.block / policy.unblock aimed at a registered candidate's own account
-	wlKey   string // setWhitelistFeeContract / removeWhitelistFeeContract: "<contract token> <method>"
-	wlFee   int64
-	wlDel   bool
+	model   bool // the Lean model predicts the result of this op
+	votes   bool // may change NEO votes / candidates when it HALTs (recompute trigger in the real code)
+	blkCand bool // policy.block / policy.unblock aimed at a registered candidate's own account
 	result  string
 }
 
@@ -61,6 +58,7 @@ type world struct {
 	slots [3]*slot
 	nkeys int
 	seq   int
+	spent map[util.Uint160]int64 // fees of the transactions already built for the next block, per payer
 }
 
 func newWorld(r *prng.R, tb *chainx.TB, net *chainx.Net, a *chainx.Node) *world {
@@ -177,6 +175,16 @@ func (w *world) mkTxMul(script []byte, mul, sysFeeAdd int64, signers ...neotest.
 	tx.SystemFee = tx.SystemFee*mul + 1_0000_0000 + sysFeeAdd
 	// no margin on the network fee: it is checked against the pre-block state, the one it was computed on, so a
 	// replica whose cached fee-per-byte / attribute fee drifted from storage rejects (or would under-charge) it
+	// the payer must be able to afford all its transactions of the block (verification sums them up)
+	payer := signers[0].ScriptHash()
+	fees := tx.SystemFee + tx.NetworkFee
+	if bal := w.bc().GetUtilityTokenBalance(payer, util.Uint160{}); !bal.IsInt64() || bal.Int64() < w.spent[payer]+fees {
+		return nil
+	}
+	if w.spent == nil {
+		w.spent = map[util.Uint160]int64{}
+	}
+	w.spent[payer] += fees
 	for _, s := range signers {
 		if err := s.SignTx(w.bc().GetConfig().Magic, tx); err != nil {
 			panic(err)
@@ -406,13 +414,10 @@ func (w *world) whitelistOp(h util.Uint160, method string, argc int, fee int64, 
 	var o *op
 	if remove {
 		o = w.committeeOp("policy.removeWhitelistFeeContract", nativehashes.PolicyContract, "removeWhitelistFeeContract",
-			fmt.Sprintf("%s %s", w.tok(h), method), false, false, h, method, int64(argc))
+			fmt.Sprintf("%s %s", w.tok(h), method), true, false, h, method, int64(argc))
 	} else {
 		o = w.committeeOp("policy.setWhitelistFeeContract", nativehashes.PolicyContract, "setWhitelistFeeContract",
-			fmt.Sprintf("%s %s %d", w.tok(h), method, fee), false, false, h, method, int64(argc), fee)
-	}
-	if o != nil {
-		o.wlKey, o.wlFee, o.wlDel = w.tok(h)+" "+method, fee, remove
+			fmt.Sprintf("%s %s %d", w.tok(h), method, fee), true, false, h, method, int64(argc), fee)
 	}
 	return o
 }
@@ -511,7 +516,7 @@ func (w *world) opUpdate(si int) *op {
 	}
 	nkv := chainx.NewKV(s.kv.Name, byte(250+w.r.Intn(5)))
 	tx := w.mkTx(chainx.Script(false, chainx.Call{Hash: s.hash, Method: "update", Args: []any{nkv.NEFBytes, nkv.ManBytes, []byte{0xee}}, Drop: true}), 0, w.net.Single(p))
-	return &op{kind: "kv.update", tx: tx, line: fmt.Sprintf("tx %s c=- kv.update %s", sigList(fmt.Sprintf("k%d", p)), w.tok(s.hash))}
+	return &op{kind: "kv.update", tx: tx, model: true, line: fmt.Sprintf("tx %s c=- kv.update %s", sigList(fmt.Sprintf("k%d", p)), w.tok(s.hash))}
 }
 
 func (w *world) opDestroy(si int) *op {
